@@ -77,9 +77,14 @@ def _bits_value(bits, fmt):
     the two's-complement reading of the literal (sign-extended) when the destination is
     signed, its plain reading otherwise, divided by 2**n_frac when n_frac > 0."""
     signed, n_word, n_frac = fmt
+    neg = bits.startswith('-')
+    if neg:
+        bits = bits[1:]
     v = int(bits, 2)
     if signed and bits[0] == '1':
         v -= 1 << len(bits)
+    if neg:
+        v = -v      # an explicit minus sign negates the literal's value (the library warns for signed)
     if n_frac is not None and n_frac > 0:
         return Fraction(v, 1 << n_frac)
     return Fraction(v)
